@@ -86,7 +86,7 @@ fn observe<R: role::RoleType>(run: &Runner<R>, g: &mut Ghost) {
                 3 if w.qos == 1 && !g.auto_pub => g.in_q1.push(w.pid),
                 3 if w.qos == 2 && !g.auto_pub => g.in_q2.push(w.pid),
                 6 if !g.auto_pub => g.in_rel.push(w.pid),
-                5 if !g.auto_pub && !(w.rc_present && w.rc >= 128) => g.limbo.push(w.pid),
+                5 if !g.auto_pub && !(w.rc_present && w.rc >= 128) => { if !g.limbo.contains(&w.pid) { g.limbo.push(w.pid) } }
                 _ => {}
             }
         }
@@ -96,6 +96,16 @@ fn observe<R: role::RoleType>(run: &Runner<R>, g: &mut Ghost) {
             g.limbo.retain(|x| *x != id);
         }
     }
+}
+
+/// contract: an id handed to a send must be in use and not owned by an open exchange
+fn app_may_use<R: role::RoleType>(run: &Runner<R>, g: &Ghost, id: u64) -> bool {
+    let s = run.conn.as_ref().unwrap().verif_state();
+    let used = id != 0 && !s.pid_free.iter().any(|(l, h)| *l <= id && id <= *h);
+    let owned = s.pid_puback.contains(&id) || s.pid_pubrec.contains(&id) || s.pid_pubcomp.contains(&id)
+        || s.pid_suback.contains(&id) || s.pid_unsuback.contains(&id) || g.limbo.contains(&id)
+        || run.conn.as_ref().unwrap().get_stored_packets().iter().any(|p| p.packet_id() as u64 == id);
+    used && !owned
 }
 
 fn bytes_of(p: &Packet) -> Vec<u8> {
@@ -134,7 +144,7 @@ fn drive<R: role::RoleType>(rng: &mut Rng, role_n: u64, ver: u64, bias: u64, abu
         let n = rng.range(1, 4);
         for _ in 0..n {
             let id = *rng.pick(&small_ids);
-            let pver = if rng.chance(1, 10) { 9 - g.wire_ver } else { g.wire_ver };
+            let pver = if abuse && rng.chance(1, 5) { 9 - g.wire_ver } else { g.wire_ver };
             match rng.below(4) {
                 0 => {
                     if let Some(p) = mk_ack(rng, pver, 6, id) {
@@ -299,7 +309,9 @@ fn drive<R: role::RoleType>(rng: &mut Rng, role_n: u64, ver: u64, bias: u64, abu
                         observe(&run, &mut g);
                     } else if !g.held.is_empty() {
                         let id = g.held.remove(rng.below(g.held.len() as u64) as usize);
-                        run.apply(&Op::Release(id), &mut st);
+                        if app_may_use(&run, &g, id) {
+                            run.apply(&Op::Release(id), &mut st);
+                        }
                     } else {
                         let id = *rng.pick(&[0u64, IDMAX]);
                         let free = id == 0 || s.pid_free.iter().any(|(l, h)| *l <= id && id <= *h);
@@ -428,8 +440,14 @@ fn local_send<R: role::RoleType>(
     }
     if !g.limbo.is_empty() && roll < 45 {
         let id = g.limbo.remove(0);
-        if let Some(p) = mk_ack(rng, wv, 6, id) {
-            run.apply(&Op::Send(p), st);
+        let sn = run.conn.as_ref().unwrap().verif_state();
+        let used = !sn.pid_free.iter().any(|(l, h)| *l <= id && id <= *h);
+        let open = sn.pid_pubcomp.contains(&id) || sn.pid_puback.contains(&id) || sn.pid_pubrec.contains(&id)
+            || run.conn.as_ref().unwrap().get_stored_packets().iter().any(|p| p.packet_id() as u64 == id);
+        if used && !open {
+            if let Some(p) = mk_ack(rng, wv, 6, id) {
+                run.apply(&Op::Send(p), st);
+            }
         }
         return;
     }
@@ -441,6 +459,9 @@ fn local_send<R: role::RoleType>(
         if qos > 0 {
             if !g.held.is_empty() && rng.chance(1, 2) {
                 id = g.held.remove(0);
+                if !app_may_use(run, g, id) {
+                    id = 0;
+                }
             } else if rng.chance(1, 20) {
                 // an id nobody acquired (refused as invalid) — only a free one, never one in flight
                 let cand = *rng.pick(small_ids);
